@@ -308,7 +308,7 @@ Definition e_close_position (w : world) (trader vamm : addr) (limit : Z) : res (
     let '(position_notional, upnl) := np in
     let t := mkTmp vamm trader s (sval (p_size p)) (e_dec c) partial_close_notional position_notional upnl szero false in
     Ok (set_eng w (eng_set_tmp (w_eng w) (Some t)),
-        [swap_input_msg vamm s partial_close_notional 0 true PARTIAL_CLOSE_ID])
+        [swap_output_msg vamm (direction_to_side (p_dir p)) partial_close_amount 0 PARTIAL_CLOSE_ID])
   else
     let '(w', m) := internal_close_position w vamm trader p limit CLOSE_ID in
     Ok (w', [m]).
